@@ -7,8 +7,9 @@
     Statements about [index] and the discriminant are in terms of the outcomes of the calls the
     code makes ([determinant fopsQc] is LinAlg's determinant, proved equal to [\det] in C18);
     [order_index_spec] uses MathComp matrices ([qmx n n a] reads a list of rows as a matrix).
-    The discriminant of the minimal polynomial enters [order_discriminant] as the argument
-    [discf] (see ASSUMPTIONS in vp/props/c15.py). *)
+    The discriminant of the minimal polynomial enters [order_discriminant] as the argument [discf];
+    the section "wired discriminant" at the end of this file connects it to [Resultant.discriminant]
+    ([Round2.order_disc], the function the correspondence check runs): nothing is assumed about it any more. *)
 From RNT.Model Require Import Base Poly Algebraic LinAlg MultTable Order.
 From RNT.Refine Require Import MatZ OrderBasic OrderIndex OrderLint OrderCanon OrderUnion.
 From Coq Require Import List QArith Qcanon.
